@@ -154,8 +154,9 @@ def _run(ctx):
                 return False
             lenl = cfg.callee_is(peel(f[2]), re.compile(r"::len$"))
             lenr = cfg.callee_is(peel(f[3]), re.compile(r"::len$"))
-            return (f[1] == "Lt" and lenl and const_is(f[3], ("255",))) or (f[1] == "Le" and lenl and const_is(f[3], ("254", "255"))) or \
-                (f[1] == "Gt" and lenr and const_is(f[2], ("255",))) or (f[1] == "Ge" and lenr and const_is(f[2], ("255",)))
+            # len < 255 before the push (so at most 255 after it): `len < 255`, `len <= 254`, `255 > len`, `254 >= len`
+            return (f[1] == "Lt" and lenl and const_is(f[3], ("255",))) or (f[1] == "Le" and lenl and const_is(f[3], ("254",))) or \
+                (f[1] == "Gt" and lenr and const_is(f[2], ("255",))) or (f[1] == "Ge" and lenr and const_is(f[2], ("254",)))
 
         def lemax(f):
             if f[0] != "cmp":
